@@ -108,18 +108,32 @@ fn replay_one(e: &Value, st: &mut Stats) -> Vec<Value> {
             st.nontrivial += 1;
         }
     }
-    match run::judge(alts, &obs) {
-        None => vec![],
-        Some(symptom) => {
+    let mut out = Vec::new();
+    let mut report = |mode: &str, symptom: &str, obs: &run::Obs| {
+        out.push(json!({
+            "key": {"dir": "spec->impl", "fam": e["fam"], "symptom": symptom, "script": script.join("\n"),
+                    "opts": opts_text(&e["o"]), "env": e["env"], "mode": mode},
+            "detail": format!("{symptom} ({mode}): what the shell shows is none of the {n_alts} outcome(s) XTrace.tla allows"),
+            "script": script, "o": e["o"], "dots": e["dots"], "sc": e["sc"], "alts": alts, "obs": obs.to_json(),
+        }));
+    };
+    if let Some(symptom) = run::judge(alts, &obs) {
+        st.mismatches += 1;
+        report("stdin", symptom, &obs);
+        return out;
+    }
+    // the same script as the operand of -c (verbose is documented for input read through a
+    // descriptor only; prompts of interactive shells depend on the source)
+    if !run::may_be_verbose(&script, &e["o"]) && e["o"]["i"] != true {
+        let obs = run::run_scenario_mode(&script, &e["o"], &e["dots"], e["env"].as_str().unwrap_or(""), true);
+        st.runs += 1;
+        *st.features.entry("mode/-c".into()).or_default() += 1;
+        if let Some(symptom) = run::judge(alts, &obs) {
             st.mismatches += 1;
-            vec![json!({
-                "key": {"dir": "spec->impl", "fam": e["fam"], "symptom": symptom, "script": script.join("\n"),
-                        "opts": opts_text(&e["o"]), "env": e["env"]},
-                "detail": format!("{symptom}: what the shell shows is none of the {n_alts} outcome(s) XTrace.tla allows"),
-                "script": script, "o": e["o"], "dots": e["dots"], "sc": e["sc"], "alts": alts, "obs": obs.to_json(),
-            })]
+            report("-c", symptom, &obs);
         }
     }
+    out
 }
 
 fn opts_text(o: &Value) -> String {
